@@ -48,43 +48,41 @@ theorem find_fuel {V : Type} {H : List Nat → Nat} (hH : ∀ k, H k ≠ 0) {s :
     exact ⟨_, hfind⟩
   · exact ⟨_, find_none hc hH hk hno⟩
 
-/-- One step (insert, get-or-create, assignment, lookup by key / index, removal by key / index,
-Reserve, Resize, Expect, Compress, Clear, Reset, copy, move): no fault, the invariant is kept, the
-abstract state and the output are those of the slot specification. -/
+/-- One step of **any** operation (Insert, Get / operator[], assignment through it, lookups by key
+and by index, Remove, RemoveIndex, Rename, Reserve, Resize, Expect, Compress, Clear, Reset, Sort,
+copy, move, both operator+=): no fault, the invariant is kept, the abstract state and the output are
+those of the slot specification. -/
 theorem inv_step_refine_step {V : Type} [Inhabited V] {H : List Nat → Nat} (ord : Nat → Nat) (hH : ∀ k, H k ≠ 0)
-    {s : HT V} (hI : Inv H s) (op : Op V) (hop : op.Proved) :
+    {s : HT V} (hI : Inv H s) (op : Op V) :
     ∃ s' o, step H ord s op = some (s', o) ∧ Inv H s' ∧ (abs s', o) = Spec.step ord (abs s) op :=
-  step_refines ord hH hI op hop
+  step_refines ord hH hI op
 
-/-- Full-strength statement: every finite operation sequence from the empty table runs without a
-fault, ends in a state satisfying the invariant, and its slot view and all its outputs are those
-of the specification. -/
-def reachable_refines : Prop :=
-  ∀ (V : Type) [Inhabited V] (H : List Nat → Nat) (ord : Nat → Nat), (∀ k, H k ≠ 0) →
-    ∀ ops : List (Op V), ∃ s' os, run H ord HT.empty ops = some (s', os) ∧ Inv H s' ∧
-      (abs s', os) = Spec.run ord Spec.empty ops
-
-/-- Proved for all sequences over the operations listed in `inv_step_refine_step`; what is missing
-for `reachable_refines` is the step lemma for `Rename`, `Sort` and `operator+=`. -/
-theorem reachable_refines_partial {V : Type} [Inhabited V] (H : List Nat → Nat) (ord : Nat → Nat)
-    (hH : ∀ k, H k ≠ 0) (ops : List (Op V)) (hops : ∀ op ∈ ops, op.Proved) :
+/-- Every finite operation sequence from the empty table runs without a fault (no read outside the
+block, no fuel exhaustion, no insertion into a full block), ends in a state satisfying the
+invariant, and its slot view and all its outputs are those of the specification. -/
+theorem reachable_refines {V : Type} [Inhabited V] (H : List Nat → Nat) (ord : Nat → Nat)
+    (hH : ∀ k, H k ≠ 0) (ops : List (Op V)) :
     ∃ s' os, run H ord HT.empty ops = some (s', os) ∧ Inv H s' ∧ (abs s', os) = Spec.run ord Spec.empty ops :=
-  run_refines ord hH ops (Qentem.HashTable.inv_empty H) hops
+  run_refines ord hH ops (Qentem.HashTable.inv_empty H)
+
+/-- The same for the real hash function of `String<char>` keys. -/
+theorem reachable_refines_hashChar {V : Type} [Inhabited V] (ops : List (Op V)) :
+    ∃ s' os, run hashChar ordChar HT.empty ops = some (s', os) ∧ Inv hashChar s' ∧
+      (abs s', os) = Spec.run ordChar Spec.empty ops :=
+  reachable_refines hashChar ordChar hashChar_ne_zero ops
 
 /-! Non-vacuity: a hash function with two values (every key collides at every capacity), a run that
 inserts, removes, re-inserts after growth and looks up; the hypotheses hold and the state is not
 trivial. -/
 def exH (k : List Nat) : Nat := k.sum % 2 + 1
 def exOps : List (Op Nat) :=
-  [.insert [1] 5, .insert [2] 6, .insert [3] 7, .remove [2], .insert [5] 9, .lookup [3]]
+  [.insert [1] 5, .insert [2] 6, .insert [3] 7, .remove [2], .insert [5] 9, .rename [3] [4], .lookup [4]]
 
 example : ∀ k, exH k ≠ 0 := by intro k; unfold exH; omega
-example : ∀ op ∈ exOps, op.Proved := by simp [exOps, Op.Proved]
 example : ((run exH id (HT.empty : HT Nat) exOps).map fun r => (r.1.items.size, r.1.cap)) = some (4, 4) := by
   decide +kernel
 example : ∃ s' os, run exH id (HT.empty : HT Nat) exOps = some (s', os) ∧ Inv exH s' :=
-  let ⟨s', os, h, hI, _⟩ := reachable_refines_partial exH id (by intro k; unfold exH; omega) exOps
-    (by simp [exOps, Op.Proved])
+  let ⟨s', os, h, hI, _⟩ := reachable_refines exH id (by intro k; unfold exH; omega) exOps
   ⟨s', os, h, hI⟩
 
 end Qentem.Props.C13
